@@ -451,7 +451,7 @@ Fixpoint neg_poll (fuel : nat) (g : nego) (pin pout : pipe) : nego * pipe * pipe
   | S f =>
       match g with
       | NCompleted => (g, pin, pout, POk)
-      | NInvalid => (g, pin, pout, PErr 0)
+      | NInvalid => (g, pin, pout, PErr C_FAILED)   (* the stream is gone: ErrorKind::Other *)
       | NExpecting st wbuf p hdr =>
           let '(w1, po1, ok) := wr_drain (wr_fuel wbuf) wbuf pout in
           if negb ok then (NExpecting st w1 p hdr, pin, po1, PPending)
